@@ -33,7 +33,21 @@ def main():
     ap.add_argument("--streams", type=int, default=None, help="seed: give every event handler its own random stream")
     ap.add_argument("--multi", type=int, default=None, help="number of cores: run under the multi-process mediator")
     ap.add_argument("--schedule", default=None, help="JSON: {policy, seed, delays: {hid: [t, o]}} for the multi-process run")
+    ap.add_argument("--preset-counters", type=int, default=None,
+                    help="K: every event handler's lazy-deletion counter of the heap scheduler starts 1..K below 2^32 (the "
+                         "state after that many trashes), so the counter wrap-around happens during the recorded legs")
     a = ap.parse_args()
+    if a.preset_counters:
+        from jellyfysh.scheduler.heap_scheduler.heap_scheduler import HeapScheduler
+        orig_push = HeapScheduler.push_event
+        seen = {}
+
+        def push_event(self, time, event_handler):
+            if event_handler not in self._minimal_valid_counter:
+                seen[id(self)] = seen.get(id(self), 0) + 1
+                self._minimal_valid_counter[event_handler] = 2 ** 32 - 1 - (seen[id(self)] * 7) % a.preset_counters
+            return orig_push(self, time, event_handler)
+        HeapScheduler.push_event = push_event
     os.makedirs(a.workdir, exist_ok=True)
     os.chdir(a.workdir)
     pkg = os.path.dirname(os.path.abspath(jellyfysh.__file__))
